@@ -98,6 +98,23 @@ def roundtrip(t, v, real=None):
 
 # ---------------------------------------------------------------------------------------------- shrinking
 def shrink(t, v, fails):
+    def tcands(t):
+        """smaller types (for the parts of a type the value does not reach)"""
+        if t[1] != G.NOANN:
+            yield G.with_ann(t, G.NOANN)
+        if t[0] == 's':
+            if t[2] != 'unit':
+                yield ('s', t[1], 'unit')
+            return
+        yield ('s', t[1], 'unit')
+        ch = list(t[2:])
+        for i, a in enumerate(ch):
+            if t[0] in 'po':
+                yield G.with_ann(a, t[1])
+            for a2 in tcands(a):
+                if t[0] in 'po' or a2[1][0] is None:
+                    yield (t[0], t[1]) + tuple(ch[:i] + [a2] + ch[i + 1:])
+
     def cands(t, v):
         k = t[0]
         if t[1] != G.NOANN:
@@ -128,6 +145,10 @@ def shrink(t, v, fails):
                 tt = list(t)
                 tt[side] = a
                 yield tuple(tt), (v[0], x)
+            for a in tcands(t[other]):
+                tt = list(t)
+                tt[other] = a
+                yield tuple(tt), v
         elif k == 'O':
             if v[0] == 'J':
                 yield G.with_ann(t[2], t[1]), v[1]
@@ -140,6 +161,7 @@ def shrink(t, v, fails):
             for i in range(len(xs)):
                 yield t, (v[0], xs[:i] + xs[i + 1:])
             if len(xs) == 1:
+                yield G.with_ann(t[2], t[1]), xs[0]
                 for a, x in cands(t[2], xs[0]):
                     if a[1][0] is None:
                         yield (k, t[1], a), (v[0], [x])
@@ -150,6 +172,8 @@ def shrink(t, v, fails):
             for i in range(len(xs)):
                 yield t, (v[0], xs[:i] + xs[i + 1:])
             if len(xs) == 1:
+                yield G.with_ann(t[2], t[1]), xs[0][0]
+                yield G.with_ann(t[3], t[1]), xs[0][1]
                 for a, x in cands(t[2], xs[0][0]):
                     if a[1][0] is None:
                         yield (k, t[1], a, t[3]), (v[0], [(x, xs[0][1])])
@@ -164,6 +188,8 @@ def shrink(t, v, fails):
         changed = False
         for t2, v2 in cands(t, v):
             steps += 1
+            if (t2, v2) == (t, v):
+                continue
             try:
                 if fails(t2, v2):
                     t, v, changed = t2, v2, True
@@ -220,7 +246,7 @@ CORPUS = [
 def gen_cases(ctx):
     rng = ctx.rng
     cases = [('corpus', t, v) for t, v in CORPUS]
-    n = 3300 if ctx.tier == 'quick' else 125000
+    n = 3900 if ctx.tier == "quick" else 150000
     while len(cases) < n:
         d = rng.choice([1, 2, 2, 3, 3, 4])
         t = G.rand_type(rng, d, p_field=rng.choice([0.2, 0.5, 0.9]), p_type=rng.choice([0.0, 0.15, 0.4]))
@@ -310,8 +336,13 @@ def run(ctx):
                 lines.append('ofpy ' + toks + ' ' + ' '.join(G.py_toks(bad)))
         plan.append(en)
     model = ctx.model(lines)
+    if model and model[0] == 'unrecognised-source':
+        model = None     # the translator did not recognise the source (obligation already broken): oracle only
 
     def cmp(stream, desc, impl, idx):
+        if model is not None and model[idx] == 'unmodelled':
+            ctx.count('unmodelled-input', stream)      # only reachable through a colliding field name (bool where an int is expected)
+            return
         if model is not None and model[idx] != impl:
             ctx.mismatch(stream, desc, impl, model[idx])
 
@@ -325,14 +356,23 @@ def run(ctx):
         ctx.count('depth', G.depth(t))
         ctx.count('root', G.prim(t) if t[0] != 's' else 'scalar')
         ok, py = en['py']
-        cmp('to-python-object', desc, ' '.join(G.py_toks(py)) if ok else py, en['i0'])
-        excl_ideal = G.excluded(t)                                            # inherent / open classes
-        excl_now = G.excluded(t, False, unit_hashable, pair_lt_lex)              # + what this tree's flags add
+        excl_now = G.excluded(t, False, unit_hashable, pair_lt_lex)              # the classes excluded on this tree
+        impl_py = ' '.join(G.py_toks(py)) if ok else py
+        if model is not None and model[en['i0']] != impl_py and any(c == 'field-name-collision' for c, _ in excl_now) and ok and any(tok in ('T', 'F') for tok in (impl_py + ' ' + model[en['i0']]).split()):
+            # Python's `True == 1` / `False == 0` for dict keys is not modelled; two keys can only differ in bool-vs-int when
+            # union branches of different type share a (colliding) name
+            ctx.count('unmodelled-input', 'bool-int-key-equality')
+        else:
+            cmp('to-python-object', desc, impl_py, en['i0'])
         cmp('pyinvertible-vs-python-spec', tdesc, 'false' if excl_now else 'true', en['inv_line'])
         ctx.count('invertible', 'yes' if not excl_now else ','.join(sorted({c for c, _ in excl_now})))
         if ok:
             back = real.of_py(py)
-            cmp('from-python-object', desc, show(back, G.val_toks), en['ofpy_line'])
+            got = show(back, G.val_toks)
+            # which of KeyError / AssertionError a non-invertible object trips first is not compared: wrap_pair reports
+            # a missing field before any leaf is converted, the mirror converts while it descends
+            if not (model is not None and got in ('err:key', 'err:assert') and model[en['ofpy_line']] in ('err:key', 'err:assert')):
+                cmp('from-python-object', desc, got, en['ofpy_line'])
         # ---- field names: unique, as documented, and the ones actually used
         for n_ in en['nodes']:
             nreal = Real(n_)
@@ -361,7 +401,17 @@ def run(ctx):
                 k, what, _ = shrunk[sig]
                 ctx.violation(k, what, {'type': G.ty_expr(t), 'value': G.val_expr(t, v), 'note': 'not shrunk (same class as an earlier one)'})
             else:
-                t2, v2 = shrink(t, v, lambda a, b: (roundtrip(a, b) or ('',))[0] == f[0])
+                cls0 = set(classes)
+
+                def still(a, b):
+                    r = roundtrip(a, b)
+                    if r is None:
+                        return False
+                    if not cls0:
+                        return r[0] == f[0]          # an unexplained failure: keep the stage while shrinking
+                    ca = {c for c, _ in G.excluded(a, False, unit_hashable, pair_lt_lex)}
+                    return bool(ca) and ca <= cls0   # stay inside the classes that can explain it (down to a single one)
+                t2, v2 = shrink(t, v, still)
                 f2 = roundtrip(t2, v2)
                 ex2 = sorted({c for c, _ in G.excluded(t2, False, unit_hashable, pair_lt_lex)})
                 if not ex2:
@@ -389,7 +439,7 @@ def run(ctx):
             # rejected-or-not and the value are compared; which exception class a malformed object trips first is not
             # (wrap_pair checks for missing fields before any leaf is converted, the mirror converts while descending)
             got = show(real.of_py(bad), G.val_toks)
-            if model is not None and not (got.startswith('err:') and model[idx].startswith('err:')) and got != model[idx]:
+            if model is not None and model[idx] != 'unmodelled' and not (got.startswith('err:') and model[idx].startswith('err:')) and got != model[idx]:
                 ctx.mismatch('from-python-object-malformed', {'type': tdesc, 'object': repr(bad)[:200]}, got, model[idx])
         # ---- contract-level helpers
         if f is None and ok and ctx.evaluations % 3 == 0:
@@ -505,6 +555,10 @@ def entrypoint_stream(ctx):
             except Exception as ex:
                 ctx.violation(f'contract-entrypoint-raises[{G.ty_str(pt)} | {e} | {G.val_str(v)}]', f'ContractEntrypoint.encode/decode raised {type(ex).__name__}: {str(ex)[:200]}', desc)
                 continue
-            if params['entrypoint'] != e or not isinstance(dec, dict) or list(dec.keys()) != [e] or G.py_toks(dec[e]) != G.py_toks(obj) or again != params:
+            if G.is_enum(pt):
+                good = params['entrypoint'] == e and dec == e      # an enum parameter reads back as the entrypoint name
+            else:
+                good = params['entrypoint'] == e and isinstance(dec, dict) and list(dec.keys()) == [e] and G.py_toks(dec[e]) == G.py_toks(obj) and again == params
+            if not good:
                 ctx.violation(f'contract-entrypoint-not-inverse[{G.ty_str(pt)} | {e} | {G.val_str(v)}]',
                               f'encode -> {params}; decode -> {dec!r}; expected {{{e!r}: {obj!r}}}', desc)
